@@ -130,6 +130,13 @@ Theorem C17_bulk_load_spec_refuted :
 Proof. exact bulk_load_refuted. Qed.
 Print Assumptions C17_bulk_load_spec_refuted.
 
+(** whatever the separators: a successful bulk_load stores exactly the loaded entries (the defect
+    above is one of routing; an unbounded scan still returns everything) *)
+Theorem C17_bulk_load_contents : forall (d : nat) (ksz : key -> Z) (es : list (key * rowid)) (t : tree),
+  StronglySorted Z.le (map fst es) -> bulk_load d ksz es = Ok t -> abs (root t) = mm_of_list es.
+Proof. exact bulk_load_abs. Qed.
+Print Assumptions C17_bulk_load_contents.
+
 (** bulk_load does not establish [WF 1], and delete needs it: a panic (index out of bounds) *)
 Theorem C17_delete_after_bulk_load_refuted :
   exists (es : list (key * rowid)) (t : tree) (k : key),
